@@ -24,6 +24,10 @@ inductive RT
   | map (elem : RT)
 deriving Inhabited
 
+def RT.isStruct : RT → Bool
+  | .struct _ => true
+  | _ => false
+
 /-- a field of a target struct: Go name, `clover` tag, `json` tag, embedded, type -/
 abbrev RField := Bytes × Bytes × Bytes × Bool × RT
 
@@ -61,13 +65,13 @@ def renameFields : List (Bytes × Bytes × Bytes × Bool × RT) → Doc → Doc
     let direct : Doc := match lookupKey (toName g j) d with
       | some v => insertKey (toName g j) (renameValue t v) d
       | none => d
-    renameFields rest (
-      match e, t, hasMapUnder g d with
-      | true, .struct sub, false =>
-        -- the fields of an embedded struct were flattened into this map:
-        -- `renamed = renameMapKeys(renamed, reflect.New(ft).Interface()); continue`
-        renameFields sub (renameTop (renameMap sub) d)
-      | _, _, _ => direct)
+    -- `sf.Anonymous && ft.Kind() == reflect.Struct`, and no MAP under the Go name: the fields of the
+    -- embedded struct were flattened into this map:
+    -- `renamed = renameMapKeys(renamed, reflect.New(ft).Interface()); continue`
+    let flattened : Doc := match t with
+      | .struct sub => renameFields sub (renameTop (renameMap sub) d)
+      | _ => direct
+    renameFields rest (if e && t.isStruct && !hasMapUnder g d then flattened else direct)
 /-- `renameValue`, by the static type -/
 def renameValue : RT → Value → Value
   | .struct fs, .obj m => .obj (renameFields fs (renameTop (renameMap fs) m))   -- `renameMapKeys(m, reflect.New(t))`
